@@ -60,8 +60,14 @@ def build(sess, name="x"):
     def add(line, kind):
         lines.append(line); kinds.append(kind)
 
+    cut = None
+    for e in sess.netlog:
+        if e[0] == "app" and e[3] == "reconnect":
+            cut = e[1]; break
     for e in sess.netlog:
         k = e[0]
+        if cut is not None and k in ("tx", "rx") and e[2] >= cut:
+            continue
         if k == "tx":
             _, n, t, src, dst, data, delays = e
             side = "c" if src == caddr else "s"
@@ -95,6 +101,8 @@ def build(sess, name="x"):
                 add("connect %s %d 1 10 %d %d %d %s" % (C, tk, rc[0], rc[1], rc[2], cr), ("op", "c", tk))
             elif op in ("send", "sendu"):
                 ep, conn = (C, "c") if side == "c" else (S, srv_key)
+                # an application call at instant t runs after the timers due at t (it is usually their consequence:
+                # e.g. the send that follows an EOF); scripts avoid accidental coincidences with timer instants
                 add("advance %s %d" % (ep, tk), ("advance", side))
                 if op == "send":
                     add("send %s %d %s %d %s" % (ep, tk, conn, sub, hx(data)), ("op", side, tk))
@@ -104,6 +112,8 @@ def build(sess, name="x"):
                 # white-box preset of the sequence space (wrap tests): mirrored in the model
                 ep, conn = (C, "c") if side == "c" else (S, srv_key)
                 add("preset %s %s %d %d" % (ep, conn, sub, data), ("setup2", None))
+            elif op == "reconnect":
+                break      # a second transport from the same address: outside this trace
             elif op == "disconnect":
                 add("advance %s %d" % (C, tk), ("advance", "c"))
                 add("disconnect %s %d c" % (C, tk), ("op", "c", tk))
@@ -113,7 +123,7 @@ def build(sess, name="x"):
             elif op == "done":
                 add("advance %s %d" % (S, tk), ("advance", "s"))
                 add("done %s %d %s" % (S, tk, srv_key), ("op", "s", tk))
-    end = ticks(sess.end_time)
+    end = ticks(cut) - 1 if cut is not None else ticks(sess.end_time)
     add("advance %s %d" % (C, end), ("advance", "c"))
     add("advance %s %d" % (S, end), ("advance", "s"))
     return lines, kinds, real
